@@ -148,3 +148,20 @@ PROPS["C03"] = {
     ),
     "note": "Which command is selected for every tree x command line (value-dependent) is not decided.",
 }
+
+PROPS["C09"] = {
+    "claimed": True,
+    "technique": "static analysis: who-may-read lint on raw args, declared-option vs tested-spelling tables, minimal guarding cuts on the CFG (switch -> setter/formatter), listener registration and dispatch-order checks, setter sibling agreement",
+    "text": (
+        "Decides how the default configuration wires the global switches: the configuration reads the command line only through "
+        "has_option_token (tokens after '--' cannot count); every spelling of every value-less option declared in configure() is "
+        "tested and nothing undeclared is; the minimal set of tests guarding each effect is extracted from the CFG and compared with "
+        "the documented table (-v/-vv/-vvv -> VERBOSE/VERY_VERBOSE/DEBUG, -q/--quiet -> set_quiet(True), -n/--no-interaction -> "
+        "set_interactive(False), --no-ansi -> PlainFormatter and --ansi -> forced AnsiFormatter for both outputs); the help listener is "
+        "registered pre-resolve, sets the resolved command and stops propagation under exactly -h/--help, and resolve_command returns "
+        "it before the resolver; the version listener is registered pre-handle and marks the event handled (default status 0); the IO "
+        "setters reach both outputs and the interactive flag is the one read_line tests."
+    ),
+    "note": "Output bytes of whole runs and 'the help page of that command' are not decided. With C08-R3 (option tokens = prefix "
+            "before '--') this gives the 'same tokens after -- have no effect' clause.",
+}
